@@ -105,13 +105,14 @@ type env struct {
 	viol  []Violation
 	held  []held
 
-	opIdx    int
-	curClass int
-	holding  int // printers currently checked out by this task
-	depth    int // user-method nesting depth
-	shadow   int // >0: running under std fmt as reference model: no yields, no counters
-	firstGet bool
-	sawOther bool
+	opIdx     int
+	curClass  int
+	lockDepth int // real locks of the library held by this task (build overlay)
+	holding   int // printers currently checked out by this task
+	depth     int // user-method nesting depth
+	shadow    int // >0: running under std fmt as reference model: no yields, no counters
+	firstGet  bool
+	sawOther  bool
 
 	refGets, refPuts int
 
@@ -152,6 +153,11 @@ func newEnv(plan *Plan, t *task) *env {
 func (e *env) yield(kind int) {
 	if freeMode {
 		runtime.Gosched()
+		return
+	}
+	if e.lockDepth > 0 {
+		// the library holds one of its own locks: switching tasks now
+		// could park this task while another blocks on that lock for good
 		return
 	}
 	if e.t != nil && e.shadow == 0 {
